@@ -14,6 +14,7 @@ package basic
 // Results are exchanged through $VERIF_WORK/c20_basic.json; violations are printed in the check's format.
 
 import (
+	"runtime"
 	"crypto/sha1"
 	"encoding/base64"
 	"encoding/json"
@@ -175,6 +176,33 @@ func TestVerif_C20(t *testing.T) {
 	dir, _ := os.MkdirTemp(work, "c20b")
 	defer os.RemoveAll(dir)
 	observed := map[int]bool{}
+	// progress monitor (see the main-package half): 2000 heartbeats of this process without one completed Validate or
+	// reload while validators and reloaders are running = they block each other
+	var progress, active int64
+	go func() {
+		last, still := int64(-1), 0
+		for {
+			time.Sleep(10 * time.Millisecond)
+			if atomic.LoadInt64(&active) == 0 {
+				still = 0
+				continue
+			}
+			if cur := atomic.LoadInt64(&progress); cur != last {
+				last, still = cur, 0
+				continue
+			}
+			still++
+			if still == 2000 {
+				buf := make([]byte, 1<<20)
+				buf = buf[:runtime.Stack(buf, true)]
+				viol("c20:validators-and-reload-block-each-other", fmt.Sprintf("no Validate and no reload returned during 2000 heartbeats (>= 20 s of this process running) after %d completed operations: validations and the reload are deadlocked", last),
+					map[string]interface{}{"goroutines": string(buf)})
+				b, _ := json.MarshalIndent(rep, "", " ")
+				_ = os.WriteFile(filepath.Join(work, "c20_basic.json"), b, 0o644)
+				os.Exit(1)
+			}
+		}
+	}()
 
 	// ---------------- A: porcupine histories ------------------------------------------------------------------
 	histories := 10
@@ -252,6 +280,7 @@ func TestVerif_C20(t *testing.T) {
 					n++
 					call := time.Since(t0).Nanoseconds()
 					out := h.Validate(c.User, c.Pw)
+					atomic.AddInt64(&progress, 1)
 					ret := time.Since(t0).Nanoseconds()
 					mu.Lock()
 					ops = append(ops, porcupine.Operation{ClientId: 1 + vI, Input: c20In{Cred: c}, Call: call, Output: out, Return: ret})
@@ -263,6 +292,7 @@ func TestVerif_C20(t *testing.T) {
 			}(vI)
 		}
 		prevGood := 1
+		atomic.StoreInt64(&active, 1)
 		for k := 2; k <= c20Versions; k++ {
 			atomic.StoreInt32(&cur, int32(k))
 			if err := c20WriteAtomic(path, c20File(k), k); err != nil {
@@ -270,6 +300,7 @@ func TestVerif_C20(t *testing.T) {
 			}
 			call := time.Since(t0).Nanoseconds()
 			err := h.loadHTPasswdFile(path)
+			atomic.AddInt64(&progress, 1)
 			ret := time.Since(t0).Nanoseconds()
 			mu.Lock()
 			ops = append(ops, porcupine.Operation{ClientId: 0, Input: c20In{Write: true, Version: k}, Call: call, Output: err == nil, Return: ret})
@@ -290,6 +321,7 @@ func TestVerif_C20(t *testing.T) {
 		}
 		atomic.StoreInt32(&stop, 1)
 		wg.Wait()
+		atomic.StoreInt64(&active, 0)
 		// overlap statistic: validations whose interval intersects a reload interval
 		var reloads [][2]int64
 		for _, o := range ops {
@@ -386,11 +418,13 @@ func TestVerif_C20(t *testing.T) {
 						atomic.AddInt64(&bad, 1)
 					}
 					atomic.AddInt64(&probes, 3)
+					atomic.AddInt64(&progress, 1)
 					_ = h.GetUsers()
 				}
 			}()
 		}
 		var ww sync.WaitGroup
+		atomic.StoreInt64(&active, 1)
 		for wI := 0; wI < 2; wI++ {
 			ww.Add(1)
 			go func(wI int) {
@@ -404,6 +438,7 @@ func TestVerif_C20(t *testing.T) {
 		ww.Wait()
 		atomic.StoreInt32(&stop, 1)
 		wg.Wait()
+		atomic.StoreInt64(&active, 0)
 		rep.InvariantProbes += atomic.LoadInt64(&probes)
 		if bad > 0 {
 			viol("c20:invariant-probe", fmt.Sprintf("two overlapping reloaders: %d answers for a user that is present with the same password in every version (or absent from all) were wrong — a partially installed version was visible", bad), nil)
